@@ -53,6 +53,50 @@ def check_location(text, impl):
     return None, p
 
 
+_DIFFS = []
+SEARCH_TAILS = (b"", b"\n\nkeep;\n", b' , "zz" ] ;\n', b"\n ) } foo \"x\" ;", b' "y"\n\n]\n;', b" true { stop; }\n")
+
+
+def search(ctx, broken):
+    """tie broken: on the inputs where code and model disagree, cut the text right behind the token the MODEL rejects (the first
+    token after which the parser, as modelled, sees no valid continuation) and vary what follows it; the place the real parser
+    reports must not move with the tail"""
+    cands = [bytes.fromhex(d["input_hex"]) for d in _DIFFS if isinstance(d, dict) and "input_hex" in d]
+    for b in broken:
+        d = b.get("detail")
+        if isinstance(d, dict) and "input_hex" in d:
+            cands.append(bytes.fromhex(d["input_hex"]))
+    cands = list(dict.fromkeys(cands))[:600]
+    if not cands:
+        return []
+    _, _, model = corr_parse.eval_both(cands)
+    texts, owner = [], []
+    for t, m in zip(cands, model):
+        parts = m.split(" ")
+        if parts[0] != "reject" or len(parts) < 5 or parts[4] in ("lexical", "endExpected", "endUnfinished"):
+            continue
+        q = offset_of(t, int(parts[1]), int(parts[2]))
+        if q is None:
+            continue
+        e = q + int(parts[3])
+        for tail in SEARCH_TAILS:
+            texts.append(t[:e] + tail)
+            owner.append((t, e, parts[1], parts[2]))
+    impl, _, _ = corr_parse.eval_both(texts)
+    out, by = [], {}
+    for x, o, got in zip(texts, owner, impl):
+        by.setdefault(o, []).append((x, " ".join(got.split(" ")[:5])))
+    for (t, e, line, col), lst in by.items():
+        places = set(g for _, g in lst)
+        if len(places) > 1:
+            a, b = lst[0], next(z for z in lst if z[1] != lst[0][1])
+            out.append({"input_hex": b[0].hex(), "input": b[0].decode("latin-1"), "other_input_hex": a[0].hex(),
+                        "what": "the reported place depends on what follows the token at line %s column %s (no valid script continues that prefix): "
+                                "%r is answered %s, %r is answered %s" % (line, col, a[0][e:][:30], a[1], b[0][e:][:30], b[1])})
+    out.sort(key=lambda v: len(v["input_hex"]))
+    return out
+
+
 def run(ctx):
     rec, info = parser_records(ctx)
     viol = []
@@ -110,6 +154,7 @@ def run(ctx):
             if got != a:
                 viol.append({"input_hex": t.hex(), "input": t.decode("latin-1"), "history_hex": [x.hex() for x, _ in multi[k:k + 3]],
                              "what": "rejection reported differently by a Parser that had rejected other scripts before: %s, fresh parser: %s" % (got[:100], a[:100])})
+    _DIFFS[:] = rec.diffs() + ndiff
     fresh, known = split_known("C18", viol, lambda f, v: False)
     res = std_result(rec, info, fresh, known, RULE, {"tail-variation": {"evaluations": len(texts), "candidates": len(cand)}, "reused-parser": {"evaluations": nre}}, diffs=rec.diffs() + ndiff)
     res["evaluations"] += len(texts)
@@ -117,6 +162,15 @@ def run(ctx):
 
 
 def replay(ctx, payload):
+    v = payload.get("violation") or {}
+    if "other_input_hex" in v:
+        a, b = bytes.fromhex(v["other_input_hex"]), bytes.fromhex(v["input_hex"])
+        ra, rb = pyref.parse_answer(a), pyref.parse_answer(b)
+        print("common prefix then two tails:\n ", a, "->", ra[:120], "\n ", b, "->", rb[:120])
+        moved = ra.split(" ")[:5] != rb.split(" ")[:5]
+        print("oracle  :", "the reported place moved with the tail" if moved else "property holds on this pair")
+        return 1 if moved else 0
+
     def oracle(t, impl, y, m):
         if impl.startswith("reject "):
             return check_location(t, impl)[0]
